@@ -11,7 +11,9 @@ handle_connection does), open_connection (always succeeds), and the peers: byte 
 proxy writes is decoded by *independent* codecs (h2, wsproto, own HTTP/1 / DNS / token scanners).
 
 Abstract message n carries the tokens h<n>x (in its head, where the protocol has one) and b<n>x (in its body);
-an edit turns both into <n + EDIT>.  A write is projected to the head / body tokens it contains.
+an edit turns both into <n + EDIT>.  A write is projected to the head / body tokens it contains, plus the messages
+whose clean end the peer's decoder saw in it (fin: HTTP/2 END_STREAM, HTTP/1 last-chunk).
+Streamed http messages (the addon sets .stream in requestheaders / responseheaders) are chunked on HTTP/1.
 """
 from __future__ import annotations
 
@@ -71,8 +73,11 @@ class Adapter:
         raise NotImplementedError
 
     def project(self, to: str, data: bytes) -> list[dict]:
-        """items: {"hd": [...], "bd": [...]} and/or {"abort": f}"""
-        return [{"hd": scan(_HD, data), "bd": scan(_BD, data)}]
+        """items: {"hd": [...], "bd": [...], "fin": [...]} and/or {"abort": f}"""
+        return [{"hd": scan(_HD, data), "bd": scan(_BD, data), "fin": []}]
+
+    def stream_hook(self, hook) -> None:
+        """Called for every hook: the place where a streaming addon sets request.stream / response.stream."""
 
     def project_close(self, to: str, half: bool) -> list[dict]:
         return [{"abort": 0}] if not half else []
@@ -171,11 +176,11 @@ class WsAdapter(Adapter):
             for ev in p.events():
                 if isinstance(ev, (wsproto.events.TextMessage, wsproto.events.BytesMessage)):
                     d = ev.data.encode() if isinstance(ev.data, str) else bytes(ev.data)
-                    out.append({"hd": [], "bd": scan(_BD, d)})
+                    out.append({"hd": [], "bd": scan(_BD, d), "fin": []})
                 elif isinstance(ev, wsproto.events.CloseConnection):
                     out.append({"abort": 0})
         except Exception:
-            out.append({"hd": [], "bd": [0]})
+            out.append({"hd": [], "bd": [0], "fin": []})
         return out
 
 
@@ -244,10 +249,10 @@ class DnsAdapter(Adapter):
         try:
             p = dns_parse(data)
         except Exception:
-            return [{"hd": [], "bd": [0]}]
+            return [{"hd": [], "bd": [0], "fin": []}]
         if p["response"] and p["rcode"] != 0:
             return [{"abort": p["id"] - 100}]
-        return [{"hd": [], "bd": scan(_BD, p["name"])}]
+        return [{"hd": [], "bd": scan(_BD, p["name"]), "fin": []}]
 
     def project_close(self, to, half):
         return [{"abort": 0}]
@@ -260,6 +265,7 @@ class Http1Adapter(Adapter):
     def make_layer(self, ctx):
         from mitmproxy.proxy.layers import http
 
+        self.last_head: dict[str, int] = {}  # newest message head written to each peer (HTTP/1 is sequential)
         return http.HttpLayer(ctx, http.HTTPMode.regular)
 
     async def setup(self):
@@ -271,18 +277,44 @@ class Http1Adapter(Adapter):
     def wire(self, m):
         n = m["n"]
         body = bd(n)
+        if self.drv.streamed(n):  # a streamed message is only observable to its end if it is chunked
+            framing = b"Transfer-Encoding: chunked\r\n\r\n%x\r\n" % len(body) + body + b"\r\n0\r\n\r\n"
+        else:
+            framing = b"Content-Length: %d\r\n\r\n" % len(body) + body
         if m["to"] == "s":
-            return "c", (b"POST http://example.com/" + hd(n) + b" HTTP/1.1\r\nHost: example.com\r\n"
-                         b"Content-Length: %d\r\n\r\n" % len(body)) + body
-        return "s", (b"HTTP/1.1 200 OK\r\nx-tok: " + hd(n) + b"\r\nContent-Length: %d\r\n\r\n" % len(body)) + body
+            return "c", b"POST http://example.com/" + hd(n) + b" HTTP/1.1\r\nHost: example.com\r\n" + framing
+        return "s", b"HTTP/1.1 200 OK\r\nx-tok: " + hd(n) + b"\r\n" + framing
+
+    @staticmethod
+    def _head_token(msg, is_request) -> int:
+        if msg is None:
+            return 0
+        src = msg.path.encode() if is_request else msg.headers.get("x-tok", "").encode()
+        toks = scan(_HD, src)
+        return toks[0] % EDIT if toks else 0
 
     def message_of_hook(self, hook):
         if hook.name not in ("request", "response"):
             return None
         f = hook.args()[0]
-        msg = f.request if hook.name == "request" else f.response
-        toks = scan(_BD, msg.raw_content or b"") if msg is not None else []
-        return (f, toks[0] % EDIT if toks else 0)
+        return (f, self._head_token(f.request if hook.name == "request" else f.response, hook.name == "request"))
+
+    def stream_hook(self, hook):
+        if hook.name == "requestheaders":
+            f = hook.args()[0]
+            if self.drv.streamed(self._head_token(f.request, True)):
+                f.request.stream = True
+        elif hook.name == "responseheaders":
+            f = hook.args()[0]
+            if self.drv.streamed(self._head_token(f.response, False)):
+                f.response.stream = True
+
+    def project(self, to, data):
+        heads = scan(_HD, data)
+        if heads:
+            self.last_head[to] = heads[-1] % EDIT
+        fin = [self.last_head[to]] if data.endswith(b"0\r\n\r\n") and self.last_head.get(to) else []
+        return [{"hd": heads, "bd": scan(_BD, data), "fin": fin}]
 
     def edit(self, flow, n, new):
         if flow.response is not None:
@@ -349,7 +381,7 @@ class Http2Adapter(Http1Adapter):
         try:
             evs = p.receive_data(data)
         except Exception:
-            return [{"hd": [], "bd": [0]}]
+            return [{"hd": [], "bd": [0], "fin": []}]
         for ev in evs:
             if isinstance(ev, (h2.events.RequestReceived, h2.events.ResponseReceived)):
                 toks = []
@@ -358,10 +390,14 @@ class Http2Adapter(Http1Adapter):
                 if isinstance(ev, h2.events.RequestReceived) and toks:
                     # which flow a server-side stream belongs to: learned from the request head
                     self.flow_of_sid["s"][ev.stream_id] = self.drv.flow_of_message(toks[0] % EDIT)
-                out.append({"hd": toks, "bd": []})
+                out.append({"hd": toks, "bd": [], "fin": []})
             elif isinstance(ev, h2.events.DataReceived):
                 p.acknowledge_received_data(ev.flow_controlled_length, ev.stream_id)
-                out.append({"hd": [], "bd": scan(_BD, ev.data)})
+                out.append({"hd": [], "bd": scan(_BD, ev.data), "fin": []})
+            elif isinstance(ev, h2.events.StreamEnded):
+                f = self.flow_of_sid[to].get(ev.stream_id, 0)
+                if f:  # the request (to the server) or the response (to the client) of flow f ended cleanly
+                    out.append({"hd": [], "bd": [], "fin": [2 * f - 1 if to == "s" else 2 * f]})
             elif isinstance(ev, h2.events.StreamReset):
                 out.append({"abort": self.flow_of_sid[to].get(ev.stream_id, 0)})
             elif isinstance(ev, h2.events.ConnectionTerminated):
@@ -406,9 +442,10 @@ class _Writer:
 class Driver:
     """One client connection of a real ProxyConnectionHandler."""
 
-    def __init__(self, proto: str, plan: dict):
+    def __init__(self, proto: str, plan: dict, streams=()):
         self.proto = proto
         self.plan = plan  # message number (str) -> addon decision "pass" | "intercept" | "kill"
+        self.streams = {int(x) for x in streams}  # http messages whose body the addon asks to stream
         self.trace: list[dict] = [{"k": "cfg", "proto": proto}]
         self.peer_out: list[tuple[str, bytes]] = []
         self.flows: dict[int, object] = {}  # flow index -> Flow object (learned at its first message hook)
@@ -507,6 +544,9 @@ class Driver:
         await self.conn_task(conn)
 
     # --- observations ---------------------------------------------------------------------------------
+    def streamed(self, n: int) -> bool:
+        return n in self.streams and self.proto in ("http1", "http2")
+
     def flow_of_message(self, n: int) -> int:
         return self.msgs.get(n, {}).get("f", 0)
 
@@ -517,7 +557,8 @@ class Driver:
         return 0
 
     def addon(self, hook):
-        """The scripted intercept addon (plus a script that may kill inside the hook)."""
+        """The scripted intercept addon (plus a script that may kill inside the hook, plus a streaming addon)."""
+        self.adapter.stream_hook(hook)
         mh = self.adapter.message_of_hook(hook)
         if mh is None:
             return
@@ -543,13 +584,15 @@ class Driver:
         for it in items:
             if "abort" in it:
                 self.trace.append({"k": "abort", "to": to, "f": it["abort"]})
-            elif it["hd"] or it["bd"]:
+            elif it["hd"] or it["bd"] or it["fin"]:
                 last = self.trace[-1]
                 if last["k"] == "write" and last["to"] == to:  # consecutive writes to one peer are one record
                     last["hd"] += it["hd"]
                     last["bd"] += it["bd"]
+                    last["fin"] += it["fin"]
                 else:
-                    self.trace.append({"k": "write", "to": to, "hd": list(it["hd"]), "bd": list(it["bd"])})
+                    self.trace.append({"k": "write", "to": to, "hd": list(it["hd"]), "bd": list(it["bd"]),
+                                       "fin": list(it["fin"])})
 
     def on_write(self, to, data):
         self._add(to, self.adapter.project(to, data))
@@ -599,7 +642,7 @@ class Driver:
             except Exception:
                 del self.msgs[m["n"]]
                 return False  # the peer cannot produce this message now (e.g. no stream to answer on)
-            self.trace.append({"k": "arrive", "n": m["n"], "f": m["f"], "to": m["to"]})
+            self.trace.append({"k": "arrive", "n": m["n"], "f": m["f"], "to": m["to"], "str": self.streamed(m["n"])})
             await self.deliver(frm, data)
             await self.settle()
         elif kind == "resume":
@@ -619,8 +662,8 @@ class Driver:
         elif kind == "edit":
             f = op[1]
             flow = self.flows.get(f)
-            held = [n for n in self.pending_hooks.values() if self.flow_of_message(n) == f]
-            if flow is None or not held:
+            held = [n for n in self.pending_hooks.values() if self.flow_of_message(n) == f and not self.streamed(n)]
+            if flow is None or not held:  # (the body of a streamed message has left: there is nothing to edit)
                 return False
             n = held[0]
             self.trace.append({"k": "edit", "n": n, "f": f, "id": n + EDIT})
@@ -641,11 +684,11 @@ class Driver:
         return list(self.trace)  # (tasks cancelled during loop teardown must not add to the observation)
 
 
-def run(proto: str, plan: dict, ops: list, choose=None):
+def run(proto: str, plan: dict, ops: list, choose=None, streams=()):
     """Run one scenario; `choose(drv)` (optional) yields further ops from the driver's state (random driver)."""
     from vf import vloop
 
-    drv = Driver(proto, plan)
+    drv = Driver(proto, plan, streams)
 
     async def main(loop):
         drv.build()
